@@ -306,7 +306,122 @@ def run(ctx) -> list[Inst]:
                 + ('' if n_ok else "name argument is not expr['name']; ")
                 + ('' if ev_ok else 'the variable body is not evaluated on the incoming targets'))
     add('variable', 'looked up by (target type, expr[name]), evaluated on the same targets', verdict, msg)
+    insts += _static_setop(ctx)
     return insts
+
+
+def _static_setop(ctx) -> list[Inst]:
+    """Static counterpart (LanguageGraph.process_step_expression): the asset type a set operation is said to lead to
+    must cover what the evaluator above returns.  `L - R` and `L \\/ R` contain elements of the LEFT operand that are
+    no R: the type returned by the shared union / intersection / difference case is the left operand's; the right
+    operand's (narrower) type is admissible under an explicit test for 'intersection' only."""
+    prog = ctx.prog
+    fname = 'LanguageGraph.process_step_expression'
+    if not prog.has_func(fname):
+        return []
+    f = prog.func(fname)
+    rel = f.module.relpath
+    props = ('C15', 'C01')
+    construct = 'static set operation: the resulting type is the left operand\'s'
+    pe = None
+    for p_ in f.params:
+        if 'expr' in p_:
+            pe = p_
+    if pe is None:
+        return [Inst(RULE, fname, construct, 'unproven', msg='expression parameter not recognised', file=rel,
+                     line=f.node.lineno, props=props, nontrivial=False)]
+    cases = _cases(f, pe)
+    out = []
+    done = set()
+    for op in ('union', 'intersection', 'difference'):
+        if op not in cases:
+            continue
+        before, body, after, c = cases[op]
+        if id(c) in done:
+            continue
+        done.add(id(c))
+        L = R = None
+        for st in body:
+            for n in ast.walk(st):
+                if isinstance(n, ast.Assign) and isinstance(n.value, ast.Call) and isinstance(n.value.func, ast.Attribute) \
+                        and n.value.func.attr == f.name and isinstance(n.targets[0], (ast.Tuple, ast.List)) \
+                        and n.targets[0].elts and isinstance(n.targets[0].elts[0], ast.Name):
+                    which = [a for a in n.value.args if isinstance(a, ast.Subscript) and is_name(a.value, pe)
+                             and isinstance(a.slice, ast.Constant)]
+                    if which and which[0].slice.value == 'lhs':
+                        L = n.targets[0].elts[0].id
+                    elif which and which[0].slice.value == 'rhs':
+                        R = n.targets[0].elts[0].id
+        if L is None or R is None:
+            out.append(Inst(RULE, fname, construct, 'unproven', msg='operand evaluation not recognised', file=rel,
+                            line=c.pattern.lineno, props=props, nontrivial=False))
+            continue
+        shared = [sub.value.value for sub in ast.walk(c.pattern)
+                  if isinstance(sub, ast.MatchValue) and isinstance(sub.value, ast.Constant)]
+        parent = {}
+        for st in body:
+            for x in ast.walk(st):
+                for ch in ast.iter_child_nodes(x):
+                    parent[id(ch)] = x
+
+        def sources(name, depth=0):
+            if name in (L, R):
+                return {name}
+            if depth > 4:
+                return {'?'}
+            res = set()
+            for st in body:
+                for n in ast.walk(st):
+                    if isinstance(n, ast.Assign) and any(is_name(t, name) for t in n.targets):
+                        v = n.value
+                        if isinstance(v, ast.Name):
+                            res |= sources(v.id, depth + 1)
+                        elif isinstance(v, ast.IfExp) and isinstance(v.body, ast.Name) and isinstance(v.orelse, ast.Name):
+                            res |= sources(v.body.id, depth + 1) | sources(v.orelse.id, depth + 1)
+                        else:
+                            res.add('?')
+            return res or {'?'}
+
+        def under_intersection_test(n):
+            cur = parent.get(id(n))
+            while cur is not None:
+                if isinstance(cur, (ast.If, ast.IfExp)) and 'intersection' in stmt_text(cur.test, 200):
+                    return True
+                if isinstance(cur, ast.match_case) and 'intersection' in stmt_text(cur.pattern, 100) \
+                        and 'union' not in stmt_text(cur.pattern, 100) and 'difference' not in stmt_text(cur.pattern, 100):
+                    return True
+                cur = parent.get(id(cur))
+            return False
+
+        for st in body:
+            for n in ast.walk(st):
+                if not (isinstance(n, ast.Return) and isinstance(n.value, ast.Tuple) and n.value.elts):
+                    continue
+                e0 = n.value.elts[0]
+                if isinstance(e0, ast.Constant) and e0.value is None:
+                    continue
+                if not isinstance(e0, ast.Name):
+                    out.append(Inst(RULE, fname, construct, 'unproven', msg=f"'{stmt_text(e0, 40)}'", file=rel,
+                                    line=n.lineno, props=props, nontrivial=False))
+                    continue
+                src = sources(e0.id)
+                if src == {L}:
+                    out.append(Inst(RULE, fname, construct, 'ok', file=rel, line=n.lineno, props=props))
+                elif R in src and len(shared) > 1 and not under_intersection_test(n) and not any(
+                        under_intersection_test(a) for st2 in body for a in ast.walk(st2)
+                        if isinstance(a, ast.Assign) and any(is_name(t, e0.id) for t in a.targets)
+                        and isinstance(a.value, ast.Name) and R in sources(a.value.id)):
+                    out.append(Inst(
+                        RULE, fname, construct, 'violation',
+                        msg=(f"the case for {shared} can return the RIGHT operand's type ('{R}') as the type the set "
+                             f"operation leads to: a difference or union still contains left-operand elements that are "
+                             f"not of that type, so the language graph links the following step to a narrower type "
+                             f"than the attack graph reaches"),
+                        file=rel, line=n.lineno, props=props))
+                else:
+                    out.append(Inst(RULE, fname, construct, 'unproven', msg=f'sources {sorted(src)}', file=rel,
+                                    line=n.lineno, props=props, nontrivial=False))
+    return out
 
 
 def _lookup_source(body, e):
